@@ -29,7 +29,9 @@ type funcNames struct {
 	Recv    string      `json:"recv,omitempty"`
 	Params  []string    `json:"params,omitempty"`
 	Results []string    `json:"results,omitempty"`
-	Locals  [][3]string `json:"locals,omitempty"` // (name, type, initial boolean literal if declared with one) in source order
+	LocalPos []int      `json:"-"` // declaration position of each local (current run only)
+	Callees [][2]string `json:"callees,omitempty"` // (callee text, type) of calls through an indexed function value, e.g. subs[i](...)
+	Locals  [][4]string `json:"locals,omitempty"` // (name, type, initial boolean literal if declared with one, role: "val:<loop>:<ranged expr>" / "idx:<loop>" for the value / index variable of a loop outside function literals) in source order
 }
 
 func typeStr(t types.Type) string {
@@ -69,7 +71,55 @@ func namesOfDecl(p *packages.Package, d *ast.FuncDecl) funcNames {
 		name string
 		typ  string
 		init string
+		obj  types.Object
 	}
+	// loop variables of loops outside function literals (pre-order ordinal as in the contracts): an invariant that names
+	// the element or index variable can be re-read over the ranged expression and the iteration ghost
+	roles := map[types.Object]string{}
+	ord := 0
+	var walk func(n ast.Node)
+	walk = func(n ast.Node) {
+		ast.Inspect(n, func(m ast.Node) bool {
+			switch st := m.(type) {
+			case *ast.FuncLit:
+				return false
+			case *ast.RangeStmt:
+				ord++
+				if st.Tok == token.DEFINE {
+					if id, ok := st.Key.(*ast.Ident); ok && id.Name != "_" {
+						if tv, ok := p.TypesInfo.Types[st.X]; ok {
+							if _, isSl := tv.Type.Underlying().(*types.Slice); isSl {
+								roles[p.TypesInfo.Defs[id]] = fmt.Sprintf("idx:%d", ord)
+							}
+							if b, isB := tv.Type.Underlying().(*types.Basic); isB && b.Info()&types.IsInteger != 0 {
+								roles[p.TypesInfo.Defs[id]] = fmt.Sprintf("idx:%d", ord)
+							}
+						}
+					}
+					if id, ok := st.Value.(*ast.Ident); ok && id.Name != "_" {
+						if tv, ok := p.TypesInfo.Types[st.X]; ok {
+							if _, isSl := tv.Type.Underlying().(*types.Slice); isSl {
+								roles[p.TypesInfo.Defs[id]] = fmt.Sprintf("val:%d:%s", ord, exprStr(st.X))
+							}
+						}
+					}
+				}
+			case *ast.ForStmt:
+				ord++
+				if as, ok := st.Init.(*ast.AssignStmt); ok && as.Tok == token.DEFINE && len(as.Lhs) == 1 && len(as.Rhs) == 1 {
+					if id, ok := as.Lhs[0].(*ast.Ident); ok {
+						if lit, ok := as.Rhs[0].(*ast.BasicLit); ok && lit.Value == "0" {
+							if inc, ok := st.Post.(*ast.IncDecStmt); ok && inc.Tok == token.INC {
+								roles[p.TypesInfo.Defs[id]] = fmt.Sprintf("idx:%d", ord)
+							}
+						}
+					}
+				}
+			}
+			return true
+		})
+	}
+	walk(d.Body)
 	// boolean flags declared with a literal: the literal tells an inverted flag (allNull := true -> anyPrepared := false)
 	inits := map[*ast.Ident]string{}
 	boolLit := func(e ast.Expr) string {
@@ -109,15 +159,72 @@ func namesOfDecl(p *packages.Package, d *ast.FuncDecl) funcNames {
 			return true
 		}
 		seen[o] = true
-		locs = append(locs, loc{o.Pos(), o.Name(), typeStr(o.Type()), inits[id]})
+		locs = append(locs, loc{o.Pos(), o.Name(), typeStr(o.Type()), inits[id], o})
+		return true
+	})
+	seenCallee := map[string]bool{}
+	ast.Inspect(d.Body, func(n ast.Node) bool {
+		if c, ok := n.(*ast.CallExpr); ok {
+			if ix, ok := ast.Unparen(c.Fun).(*ast.IndexExpr); ok {
+				if tv, ok := p.TypesInfo.Types[ix]; ok {
+					if _, isSig := tv.Type.Underlying().(*types.Signature); isSig && !seenCallee[exprStr(ix)] {
+						seenCallee[exprStr(ix)] = true
+						fn.Callees = append(fn.Callees, [2]string{exprStr(ix), typeStr(tv.Type)})
+					}
+				}
+			}
+		}
 		return true
 	})
 	// implicit objects of type switches (x := y.(type)) are recorded per clause: one entry by name is enough
 	sort.SliceStable(locs, func(i, j int) bool { return locs[i].pos < locs[j].pos })
 	for _, l := range locs {
-		fn.Locals = append(fn.Locals, [3]string{l.name, l.typ, l.init})
+		fn.Locals = append(fn.Locals, [4]string{l.name, l.typ, l.init, roles[l.obj]})
+		fn.LocalPos = append(fn.LocalPos, int(l.pos))
 	}
 	return fn
+}
+
+func fieldNames(fl *ast.FieldList) []string {
+	var out []string
+	if fl == nil {
+		return out
+	}
+	for _, f := range fl.List {
+		if len(f.Names) == 0 {
+			out = append(out, "")
+		}
+		for _, n := range f.Names {
+			out = append(out, n.Name)
+		}
+	}
+	return out
+}
+
+// litForKey returns the function literal a contract key "F$N" refers to (N-th literal of F, pre-order).
+func (E *Engine) litForKey(p *packages.Package, key string) *ast.FuncLit {
+	i := strings.Index(key, "$")
+	if i < 0 {
+		return nil
+	}
+	d := E.findDecl(p, key[:i])
+	ord := 0
+	fmt.Sscanf(key[i+1:], "%d", &ord)
+	if d == nil || d.Body == nil || ord <= 0 {
+		return nil
+	}
+	var lit *ast.FuncLit
+	n := 0
+	ast.Inspect(d.Body, func(nd ast.Node) bool {
+		if fl, ok := nd.(*ast.FuncLit); ok {
+			n++
+			if n == ord {
+				lit = fl
+			}
+		}
+		return lit == nil
+	})
+	return lit
 }
 
 // declForKey finds the declaration a contract key refers to ("F", "T.M", "F$N" -> the enclosing F).
@@ -137,7 +244,13 @@ func (E *Engine) collectNames() map[string]funcNames {
 			continue
 		}
 		for key, c := range pc.Funcs {
-			if c.Assumed || strings.Contains(key, "$") {
+			if c.Assumed {
+				continue
+			}
+			if strings.Contains(key, "$") {
+				if lit := E.litForKey(p, key); lit != nil {
+					out[strings.TrimPrefix(path, modulePath+"/")+"."+key] = funcNames{Params: fieldNames(lit.Type.Params), Results: fieldNames(lit.Type.Results)}
+				}
 				continue
 			}
 			d := E.declForKey(p, key)
@@ -183,8 +296,20 @@ func renamesFor(rec, cur funcNames) map[string]string {
 	}
 	add(curAll, cur)
 	add(recAll, rec)
+	curSlots := map[string]bool{}
+	if cur.Recv != "" {
+		curSlots[cur.Recv] = true
+	}
+	for _, x := range cur.Params {
+		curSlots[x] = true
+	}
+	for _, x := range cur.Results {
+		curSlots[x] = true
+	}
 	slot := func(o, n string) {
-		if o != "" && o != "_" && n != "" && n != "_" && o != n && !curAll[o] {
+		// positional: the clause meant this parameter whatever the recorded name denotes now (a new local may reuse it);
+		// a name that is still a receiver / parameter / result of the function is left to its own slot
+		if o != "" && o != "_" && n != "" && n != "_" && o != n && !curSlots[o] {
 			ren[o] = n
 		}
 	}
@@ -199,25 +324,147 @@ func renamesFor(rec, cur funcNames) map[string]string {
 			slot(rec.Results[i], cur.Results[i])
 		}
 	}
-	taken := map[int]bool{}
-	for _, l := range rec.Locals {
-		if curAll[l[0]] || ren[l[0]] != "" {
+	// occurrence-level matching of the locals (a name may be declared several times in different scopes)
+	matchedOld := make([]bool, len(rec.Locals))
+	matchedNew := make([]bool, len(cur.Locals))
+	for pass := 0; pass < 2; pass++ {
+		for i, l := range rec.Locals {
+			if matchedOld[i] {
+				continue
+			}
+			for j, c := range cur.Locals {
+				if matchedNew[j] || c[0] != l[0] || (pass == 0 && c[1] != l[1]) {
+					continue
+				}
+				matchedOld[i], matchedNew[j] = true, true
+				break
+			}
+		}
+	}
+	// the index variable of the same loop (by ordinal) first
+	for i, l := range rec.Locals {
+		if matchedOld[i] || !strings.HasPrefix(l[3], "idx:") {
 			continue
 		}
 		for j, c := range cur.Locals {
-			if taken[j] || recAll[c[0]] || c[1] != l[1] {
+			if matchedNew[j] || c[3] != l[3] || c[1] != l[1] || recAll[c[0]] {
 				continue
 			}
-			taken[j] = true
-			ren[l[0]] = c[0]
-			if !strings.HasPrefix(l[1], "func(") {
+			matchedOld[i], matchedNew[j] = true, true
+			dup := 0
+			for _, l2 := range rec.Locals {
+				if l2[0] == l[0] {
+					dup++
+				}
+			}
+			if dup > 1 || curAll[l[0]] {
+				ren[aliasMark+l[0]] += fmt.Sprintf("%s@%d,", c[0], cur.LocalPos[j])
+			} else {
+				ren[l[0]] = c[0]
 				ren[noCallMark+l[0]] = "1"
 			}
-			if l[1] == "bool" && l[2] != "" && c[2] != "" && l[2] != c[2] {
-				// a flag declared with the opposite literal: the clauses read it negated
-				ren[l[0]] = "(!" + c[0] + ")"
-			}
 			break
+		}
+	}
+	for i, l := range rec.Locals {
+		if matchedOld[i] || ren[l[0]] != "" || ren[aliasMark+l[0]] != "" {
+			continue
+		}
+		var cands []int
+		for j, c := range cur.Locals {
+			if matchedNew[j] || recAll[c[0]] || c[1] != l[1] {
+				continue
+			}
+			cands = append(cands, j)
+		}
+		if len(cands) == 0 && strings.HasPrefix(l[1], "func(") {
+			// a function-typed loop variable that was called: the call may now go through the indexed slice directly
+			done := false
+			for _, ce := range cur.Callees {
+				was := false
+				for _, oe := range rec.Callees {
+					if oe[0] == ce[0] {
+						was = true
+					}
+				}
+				if !was && ce[1] == l[1] && !curAll[l[0]] {
+					ren[l[0]] = ce[0]
+					done = true
+					break
+				}
+			}
+			if done {
+				continue
+			}
+		}
+		if len(cands) == 0 {
+			// no new local of that type: a loop's element / index variable can still be read through the loop itself
+			expr := ""
+			if strings.HasPrefix(l[3], "idx:") {
+				expr = "$i" + strings.TrimPrefix(l[3], "idx:")
+			} else if strings.HasPrefix(l[3], "val:") {
+				parts := strings.SplitN(strings.TrimPrefix(l[3], "val:"), ":", 2)
+				if len(parts) == 2 {
+					expr = "(" + parts[1] + ")[$i" + parts[0] + "]"
+				}
+			}
+			if expr != "" {
+				if curAll[l[0]] {
+					ren[aliasMark+l[0]] += expr + ","
+				} else {
+					ren[l[0]] = expr
+					ren[noCallMark+l[0]] = "1"
+				}
+			}
+			continue
+		}
+		// as many unmatched recorded locals of this type as unmatched new ones: pair them in source order
+		if len(cands) > 1 && !curAll[l[0]] {
+			var olds []int
+			for i2, l2 := range rec.Locals {
+				if !matchedOld[i2] && l2[1] == l[1] && !curAll[l2[0]] {
+					olds = append(olds, i2)
+				}
+			}
+			if len(olds) == len(cands) {
+				sameName := 0
+				for _, i2 := range olds {
+					if rec.Locals[i2][0] == l[0] {
+						sameName++
+					}
+				}
+				if sameName == 1 {
+					for k, i2 := range olds {
+						if i2 == i {
+							cands = []int{cands[k]}
+						}
+					}
+				}
+			}
+		}
+		if curAll[l[0]] || len(cands) > 1 {
+			// the name is still declared in another scope, or several new locals of its type exist (a reused variable
+			// split in two): the new names are aliases, tried where the recorded name is not in scope at the clause's
+			// program point; among several the one declared last before that point is taken
+			for _, j := range cands {
+				ren[aliasMark+l[0]] += cur.Locals[j][0] + ","
+				if curAll[l[0]] {
+					matchedNew[j] = true
+					break
+				}
+			}
+			continue
+		}
+		c := cur.Locals[cands[0]]
+		matchedNew[cands[0]] = true
+		matchedOld[i] = true
+		ren[l[0]] = c[0]
+		if !strings.HasPrefix(l[1], "func(") {
+			ren[noCallMark+l[0]] = "1"
+		}
+		if l[1] == "bool" && l[2] != "" && c[2] != "" && l[2] != c[2] {
+			// a flag declared with the opposite literal: the clauses read it negated
+			ren[l[0]] = "(!" + c[0] + ")"
 		}
 	}
 	return ren
@@ -226,6 +473,9 @@ func renamesFor(rec, cur funcNames) map[string]string {
 // noCallMark+name in a rename map: name is not a function-typed variable, so `name(` in a clause is a spec function or a
 // declared function of the same name and stays.
 const noCallMark = "\x00nocall:"
+
+// aliasMark+name: comma separated new names of a recorded local whose own name is still declared in another scope
+const aliasMark = "\x00alias:"
 
 // renameText rewrites the free identifiers of a clause / callee text (an identifier after '.' is a selector and stays).
 func renameText(s string, ren map[string]string) string {
@@ -293,7 +543,10 @@ func renameStrings(xs []string, ren map[string]string) {
 }
 
 // unrenameObligation maps the callee texts and closure names inside an obligation name back to the recorded identifiers.
-func unrenameObligation(name, key string, inv map[string]string) string {
+func unrenameObligation(name, key string, inv map[string]string, texts [][2]string) string {
+	for _, t := range texts {
+		name = strings.ReplaceAll(name, "."+t[0]+"#", "."+t[1]+"#")
+	}
 	rest := strings.TrimPrefix(name, key+"/")
 	if rest == name {
 		return name
@@ -308,10 +561,38 @@ func unrenameObligation(name, key string, inv map[string]string) string {
 
 // applyRenames rewrites one contract in place.
 func applyRenames(c *FuncContract, ren map[string]string) {
-	c.Unrename = map[string]string{}
 	for o, n := range ren {
+		if strings.HasPrefix(n, "(") && strings.Contains(n, "$i") {
+			plain := map[string]string{}
+			for o2, n2 := range ren {
+				if o2 != o && !strings.HasPrefix(n2, "(") && !strings.HasPrefix(o2, "\x00") {
+					plain[o2] = n2
+				}
+			}
+			ren[o] = renameText(n, plain)
+		}
+	}
+	c.Unrename = map[string]string{}
+	c.renameMap = ren
+	for o, n := range ren {
+		if strings.HasPrefix(o, aliasMark) {
+			if c.Alias == nil {
+				c.Alias = map[string][]string{}
+			}
+			c.Alias[strings.TrimPrefix(o, aliasMark)] = strings.Split(strings.TrimSuffix(n, ","), ",")
+			continue
+		}
 		if !strings.HasPrefix(n, "(") && !strings.HasPrefix(o, noCallMark) {
-			c.Unrename[n] = o
+			if strings.ContainsAny(n, "[]") {
+				c.UnrenameText = append(c.UnrenameText, [2]string{n, o})
+			} else {
+				c.Unrename[n] = o
+			}
+		}
+	}
+	for o := range ren {
+		if strings.HasPrefix(o, aliasMark) {
+			delete(ren, o)
 		}
 	}
 	renameClauses(c.Requires, ren)
@@ -385,17 +666,33 @@ func (E *Engine) repairNames(pkgPath string, pc *PkgContracts) {
 			rec.Results, cur.Results = nil, nil
 		}
 		ren := renamesFor(rec, cur)
+		if base != key {
+			if lrec, ok := E.names[rel+"."+key]; ok {
+				if lit := E.litForKey(p, key); lit != nil {
+					lcur := fieldNames(lit.Type.Params)
+					if len(lcur) == len(lrec.Params) {
+						for i := range lcur {
+							if o, n := lrec.Params[i], lcur[i]; o != "" && o != "_" && n != "" && n != "_" && o != n {
+								ren[o] = n
+							}
+						}
+					}
+				}
+			}
+		}
 		if len(ren) == 0 {
 			continue
 		}
-		applyRenames(c, ren)
 		var parts []string
 		for o, n := range ren {
-			if !strings.HasPrefix(o, noCallMark) {
+			if strings.HasPrefix(o, aliasMark) {
+				parts = append(parts, strings.TrimPrefix(o, aliasMark)+"~>"+strings.TrimSuffix(n, ","))
+			} else if !strings.HasPrefix(o, noCallMark) {
 				parts = append(parts, o+"->"+n)
 			}
 		}
 		sort.Strings(parts)
+		applyRenames(c, ren)
 		msg := fmt.Sprintf("%s.%s: clauses re-read with renamed identifiers %s", rel, key, strings.Join(parts, ", "))
 		E.nameRepairs = append(E.nameRepairs, msg)
 	}
